@@ -15,11 +15,13 @@ order and LCP array) does not depend on it and the theorems quantify over it:
   * the order in which sub-ranges are processed (jobs, work sharing): the recursion below
     handles buckets left to right; `Props/C04` shows the result of a bucket depends only
     on the bucket, hence any order gives the same arrays;
-  * `insertion_sort(strptr, depth, 0)` (C03) is taken by its specification `baseSort`.
+  * `insertion_sort(strptr, depth, 0)` is the transliteration of property C03
+    (`C03.insertionSort`, LCP overload; `insSort` below adapts the result format).
 A result is the sorted string list and an LCP list of the same length whose entry 0 is
 the slot the sorter of this range does not write (0 here).
 -/
 import TlxVerif.Model.C04Classify
+import TlxVerif.Model.C03Insertion
 namespace TlxVerif.C04
 
 structure Params where
@@ -68,6 +70,12 @@ def lcpsOf : List Str → List Nat
 def baseSort (strs : List Str) : Res :=
   let out := strs.foldl (fun acc s => insertStr s acc) []
   { out := out, lcp := lcpsOf out }
+
+/-- `insertion_sort(strptr, depth, memory = 0)` of tlx/sort/strings/insertion_sort.hpp: the model of
+property C03 (LCP overload) on an LCP range whose slots hold 0 -/
+def insSort (depth : Nat) (strs : List Str) : Res :=
+  let r := C03.insertionSort (fun s : Str => s) true depth strs (List.replicate strs.length 0)
+  { out := r.1, lcp := r.2 }
 
 /-- `fill_lcp(v)`: entries 1.. of the range -/
 def fillLcp (n v : Nat) : List Nat :=
@@ -120,6 +128,13 @@ def lcpPass (c : Classifier) (useCalc : Bool) (out : List Str) (lcps : List Nat)
 def boundsOf (sizes : List Nat) : List Nat :=
   (sizes.foldl (fun (acc : List Nat × Nat) s => (acc.1 ++ [acc.2 + s], acc.2 + s)) ([0], 0)).1
 
+/-- `if (start != 0) set_lcp(start, depth + lcpKeyType(cache[start - 1], cache[start]))` for the group
+that starts behind a group of key `prev` -/
+def withHead (prev : Option Key) (depth : Nat) (k : Key) (inner : Res) : Res :=
+  match prev with
+  | some pk => { inner with lcp := setLcp inner.lcp 0 (depth + lcpKeyType pk k) }
+  | none => inner
+
 /-- the groups of equal cached keys of `insertion_sort_cache<false>` after the strings were
 sorted by their cached keys: LCP between groups from the two keys, inside a group a deeper
 insertion sort (`depth + 8`) or, when the key contains the terminator, `fill_lcp` -/
@@ -131,14 +146,11 @@ def insGroups (depth : Nat) (prev : Option Key) : Nat → List (Str × Key) → 
     let after := rest.dropWhile (·.2 = k)
     let inner : Res :=
       if grp.length > 1 then
-        if lowByte k ≠ 0 then baseSort (grp.map (·.1))      -- insertion_sort(sub, depth + 8)
+        if lowByte k ≠ 0 then insSort (depth + 8) (grp.map (·.1))      -- insertion_sort(sub, depth + 8)
         else doneRes (grp.map (·.1)) (depth + lcpKeyDepth k)
       else { out := [s], lcp := [0] }
-    let inner : Res := match prev with
-      | some pk => { inner with lcp := setLcp inner.lcp 0 (depth + lcpKeyType pk k) }
-      | none => inner
     let r ← insGroups depth (some k) g after
-    pure (inner.append r)
+    pure ((withHead prev depth k inner).append r)
 
 inductive Mode
   | enq          -- PS5Context::enqueue
@@ -153,6 +165,102 @@ inductive Mode
 def bucketsOf (strs : List Str) (ids : List Nat) (bktnum : Nat) : List (List Str) :=
   (List.range bktnum).map fun b => ((strs.zip ids).filter fun p => p.2 = b).map (·.1)
 
+/-- the recursive calls a step makes (`rec mode strs depth`) -/
+abbrev Rec := Mode → List Str → Nat → M Res
+
+/-- what a sample sort step does with bucket `i` (the loop bodies of `distribute_finished` for
+`mode = .big`, of `sort_sample_sort` for `mode = .seqss`) -/
+def bucketBody (env : Env) (rec : Rec) (mode : Mode) (c : Classifier) (depth bktnum : Nat)
+    (bi : List Str × Nat) : M Res := do
+  let bk := bi.1
+  let i := bi.2
+  let sz := bk.length
+  let slcp := (c.slcp[i / 2]?).getD 0
+  if sz = 0 then pure ({ out := [], lcp := [] } : Res)
+  else if i % 2 = 0 then
+    -- less-than bucket: common prefix grows by the splitter lcp
+    let d := if i = bktnum - 1 ∧ mode = .big then depth else depth + (slcp % 128)
+    if mode = .big then
+      if sz = 1 then pure ({ out := bk, lcp := [0] } : Res)
+      else rec .enq bk d
+    else if sz < env.p.smallsort then rec .mkqsTop bk d
+    else rec .seqss bk d
+  else do
+    -- equal bucket
+    let spl ← liftO .oob (if env.p.useCalc then c.getSplitterCalc (i / 2) else c.getSplitterArr (i / 2))
+    if mode = .big ∧ sz = 1 then pure ({ out := bk, lcp := [0] } : Res)
+    else if slcp ≥ 128 then pure (doneRes bk (depth + lcpKeyDepth spl))
+    else if mode = .big then rec .enq bk (depth + 8)
+    else if sz < env.p.smallsort then rec .mkqsTop bk (depth + 8)
+    else rec .seqss bk (depth + 8)
+
+/-- one sample sort step: `PS5BigSortStep` (sample, count, distribute, sub-steps, LCP pass) resp.
+`SeqSampleSortStep` -/
+def sampleBody (env : Env) (rec : Rec) (mode : Mode) (strs : List Str) (depth : Nat) : M Res := do
+  let n := strs.length
+  let tb := env.p.treebits
+  let ns := numSplitters tb
+  let bktnum := 2 * ns + 1
+  let keys ← keysOf strs depth
+  -- samples[i] = get_key_at(strset, rng() % n, depth); std::sort(samples)
+  let samples ← (env.sampler n (2 * ns)).mapM fun i => liftO .oob keys[i]?
+  let samples := (samples.mergeSort (fun a b => a ≤ b)).toArray
+  let c ← liftO .oob (build tb samples)
+  let ids ← keys.mapM fun k => liftO .oob (c.findBkt env.p.useCalc k)
+  let bkts := bucketsOf strs ids bktnum
+  let rs ← bkts.zipIdx.mapM (bucketBody env rec mode c depth bktnum)
+  let out := (rs.map (·.out)).flatten
+  let lcps := (rs.map (·.lcp)).flatten
+  let bounds := boundsOf (bkts.map List.length)
+  let lcps ← lcpPass c env.p.useCalc out lcps depth bounds
+  pure { out := out, lcp := lcps }
+
+/-- `MKQSStep::calculate_lcp` on the concatenated `<`, `=`, `>` parts -/
+def mkqsLcp (depth : Nat) (pivot maxLt minGt : Key) (nlt neq ngt : Nat) (lcps : List Nat) : List Nat :=
+  let l1 := if nlt > 0 then setLcp lcps nlt (depth + lcpKeyType maxLt pivot) else lcps
+  if ngt > 0 then setLcp l1 (nlt + neq) (depth + lcpKeyType pivot minGt) else l1
+
+/-- the `=` part of an MKQS step: finished when the pivot key contains the terminator, otherwise
+sorted deeper (`insertion_sort_cache<true>` = `insertion_sort` resp. a new `MKQSStep`) -/
+def mkqsEq (env : Env) (rec : Rec) (eq : List Str) (depth : Nat) (pivot : Key) : M Res :=
+  if lowByte pivot = 0 then pure (doneRes eq (depth + lcpKeyDepth pivot))
+  else if eq.length < env.p.inssort then pure (insSort (depth + 8) eq)
+  else rec .mkqs eq (depth + 8)
+
+/-- the `<` / `>` part of an MKQS step -/
+def mkqsSub (env : Env) (rec : Rec) (part : List Str) (depth : Nat) : M Res :=
+  if part.length = 0 then pure { out := [], lcp := [] }
+  else if part.length < env.p.inssort then rec .inscache part depth
+  else rec .mkqs part depth
+
+/-- one `MKQSStep` with the handling of its three parts in `sort_mkqs_cache` -/
+def mkqsBody (env : Env) (rec : Rec) (strs : List Str) (depth : Nat) : M Res := do
+  let n := strs.length
+  if n = 0 then .error .internal else
+  let keys ← keysOf strs depth
+  let pivot ← liftO .internal keys[env.pivot keys % n]?
+  let sk := strs.zip keys
+  let lt := (sk.filter fun p => p.2 < pivot).map (·.1)
+  let eq := (sk.filter fun p => p.2 = pivot).map (·.1)
+  let gt := (sk.filter fun p => pivot < p.2).map (·.1)
+  let ltKeys := keys.filter (· < pivot)
+  let gtKeys := keys.filter (pivot < ·)
+  let rlt ← mkqsSub env rec lt depth
+  let req ← mkqsEq env rec eq depth pivot
+  let rgt ← mkqsSub env rec gt depth
+  let r := (rlt.append req).append rgt
+  let maxLt := ltKeys.foldl (fun a b => if a < b then b else a) 0
+  let minGt := gtKeys.foldl (fun a b => if b < a then b else a) (BitVec.allOnes 64)
+  pure { out := r.out, lcp := mkqsLcp depth pivot maxLt minGt lt.length eq.length gt.length r.lcp }
+
+/-- `insertion_sort_cache<false>`: sort by the cached keys, then the groups of equal keys -/
+def insCacheBody (strs : List Str) (depth : Nat) : M Res := do
+  let n := strs.length
+  if n ≤ 1 then pure { out := strs, lcp := fillLcp n 0 } else
+  let keys ← keysOf strs depth
+  let sk := (strs.zip keys).mergeSort (fun a b => a.2 ≤ b.2)
+  insGroups depth none (n + 1) sk
+
 def sortM (env : Env) : Nat → Mode → List Str → Nat → M Res
   | 0, _, _, _ => .error .fuel
   | fuel + 1, mode, strs, depth =>
@@ -162,78 +270,20 @@ def sortM (env : Env) : Nat → Mode → List Str → Nat → M Res
       if env.isBig n then sortM env fuel .big strs depth
       else if n ≥ env.p.smallsort then sortM env fuel .seqss strs depth
       else sortM env fuel .mkqsTop strs depth
-    | .big | .seqss => do
-      let tb := env.p.treebits
-      let ns := numSplitters tb
-      let bktnum := 2 * ns + 1
-      let keys ← keysOf strs depth
-      -- samples[i] = get_key_at(strset, rng() % n, depth); std::sort(samples)
-      let samples ← (env.sampler n (2 * ns)).mapM fun i => liftO .oob keys[i]?
-      let samples := (samples.mergeSort (fun a b => a ≤ b)).toArray
-      let c ← liftO .oob (build tb samples)
-      let ids ← keys.mapM fun k => liftO .oob (c.findBkt env.p.useCalc k)
-      let bkts := bucketsOf strs ids bktnum
-      let rs ← bkts.zipIdx.mapM fun (bk, i) => do
-          let sz := bk.length
-          let slcp := (c.slcp[i / 2]?).getD 0
-          if sz = 0 then pure ({ out := [], lcp := [] } : Res)
-          else if i % 2 = 0 then
-            -- less-than bucket: common prefix grows by the splitter lcp
-            let d := if i = bktnum - 1 ∧ mode = .big then depth else depth + (slcp % 128)
-            if mode = .big then
-              if sz = 1 then pure ({ out := bk, lcp := [0] } : Res)
-              else sortM env fuel .enq bk d
-            else if sz < env.p.smallsort then sortM env fuel .mkqsTop bk d
-            else sortM env fuel .seqss bk d
-          else do
-            -- equal bucket
-            let spl ← liftO .oob (if env.p.useCalc then c.getSplitterCalc (i / 2) else c.getSplitterArr (i / 2))
-            if mode = .big ∧ sz = 1 then pure ({ out := bk, lcp := [0] } : Res)
-            else if slcp ≥ 128 then pure (doneRes bk (depth + lcpKeyDepth spl))
-            else if mode = .big then sortM env fuel .enq bk (depth + 8)
-            else if sz < env.p.smallsort then sortM env fuel .mkqsTop bk (depth + 8)
-            else sortM env fuel .seqss bk (depth + 8)
-      let out := (rs.map (·.out)).flatten
-      let lcps := (rs.map (·.lcp)).flatten
-      let bounds := boundsOf (bkts.map List.length)
-      let lcps ← lcpPass c env.p.useCalc out lcps depth bounds
-      pure { out := out, lcp := lcps }
+    | .big => sampleBody env (sortM env fuel) .big strs depth
+    | .seqss => sampleBody env (sortM env fuel) .seqss strs depth
     | .mkqsTop =>
-      if n < env.p.inssort then pure (baseSort strs)
+      if n < env.p.inssort then pure (insSort depth strs)
       else sortM env fuel .mkqs strs depth
-    | .mkqs => do
-      if n = 0 then .error .internal else
-      let keys ← keysOf strs depth
-      let pivot ← liftO .internal keys[env.pivot keys % n]?
-      let sk := strs.zip keys
-      let lt := (sk.filter fun p => p.2 < pivot).map (·.1)
-      let eq := (sk.filter fun p => p.2 = pivot).map (·.1)
-      let gt := (sk.filter fun p => pivot < p.2).map (·.1)
-      let ltKeys := keys.filter (· < pivot)
-      let gtKeys := keys.filter (pivot < ·)
-      let sub (part : List Str) : M Res :=
-        if part.length = 0 then pure { out := [], lcp := [] }
-        else if part.length < env.p.inssort then sortM env fuel .inscache part depth
-        else sortM env fuel .mkqs part depth
-      let rlt ← sub lt
-      let req ←
-        if lowByte pivot = 0 then pure (doneRes eq (depth + lcpKeyDepth pivot))
-        else if eq.length < env.p.inssort then pure (baseSort eq)   -- insertion_sort_cache<true>
-        else sortM env fuel .mkqs eq (depth + 8)
-      let rgt ← sub gt
-      let r := (rlt.append req).append rgt
-      -- MKQSStep::calculate_lcp
-      let maxLt := ltKeys.foldl (fun a b => if a < b then b else a) 0
-      let minGt := gtKeys.foldl (fun a b => if b < a then b else a) (BitVec.allOnes 64)
-      let l1 := if lt.length > 0 then setLcp r.lcp lt.length (depth + lcpKeyType maxLt pivot) else r.lcp
-      let l2 := if gt.length > 0 then setLcp l1 (lt.length + eq.length) (depth + lcpKeyType pivot minGt) else l1
-      pure { out := r.out, lcp := l2 }
-    | .inscache => do
-      -- insertion_sort_cache<false>: sort by the cached keys, then the groups of equal keys
-      if n ≤ 1 then pure { out := strs, lcp := fillLcp n 0 } else
-      let keys ← keysOf strs depth
-      let sk := (strs.zip keys).mergeSort (fun a b => a.2 ≤ b.2)
-      insGroups depth none (n + 1) sk
+    | .mkqs => mkqsBody env (sortM env fuel) strs depth
+    | .inscache => insCacheBody strs depth
+
+/-- the characters (and terminators) of a range behind a common prefix of length `d` -/
+def msize (strs : List Str) (d : Nat) : Nat := (strs.map (fun s => s.length + 1 - d)).sum
+
+/-- fuel that suffices for a whole sort (`Props/C04.sortAll_terminates`): three units per character
+and per string, plus three -/
+def fuelFor (strs : List Str) : Nat := 3 * msize strs 0 + 3
 
 /-- `parallel_sample_sort_base`: `ctx.enqueue(nullptr, strptr, 0)` -/
 def sortAll (env : Env) (fuel : Nat) (strs : List Str) : M Res := sortM env fuel .enq strs 0
